@@ -1,10 +1,13 @@
 -- Root of the library: every property module (and through them the models, specs and lemmas).
+import GoWebdav.Props.C01
+import GoWebdav.Props.C02
 import GoWebdav.Props.C03
 import GoWebdav.Props.C04
 import GoWebdav.Props.C06
 import GoWebdav.Props.C07
 import GoWebdav.Props.C12
 import GoWebdav.Props.C16
+import GoWebdav.Props.C17
 import GoWebdav.Props.C19
 import GoWebdav.Generated.Tables
 import GoWebdav.Generated.Schema
